@@ -1,0 +1,123 @@
+//go:build verif
+
+package verifier
+
+import "github.com/zmap/zcrypto/x509"
+
+// This file is compiled only with the build tag "verif". It contains
+// accessors for external runtime monitors: a read-only snapshot of the graph's
+// internal state. It adds no behaviour and changes nothing.
+
+// VerifEdgeView is a read-only view of one GraphEdge as stored in an edge set.
+type VerifEdgeView struct {
+	SetKey      string // key under which the edge is stored in the set it was read from
+	Edge        *GraphEdge
+	Certificate *x509.Certificate
+	Issuer      *GraphNode // nil when the edge has no issuer
+	Child       *GraphNode
+	IssuerFP    []byte // SubjectAndKey fingerprint of Issuer, nil when Issuer is nil
+	ChildFP     []byte // SubjectAndKey fingerprint of Child, nil when Child is nil
+	Root        bool
+}
+
+// VerifNodeView is a read-only view of one GraphNode.
+type VerifNodeView struct {
+	Node        *GraphNode
+	Fingerprint []byte                     // Node.SubjectAndKey.Fingerprint
+	Parents     map[string][]VerifEdgeView // parentsBySubjectAndKey, keyed as stored
+	Children    map[string][]VerifEdgeView // childrenBySubjectAndKey, keyed as stored
+}
+
+// VerifGraphView is a read-only snapshot of a Graph.
+type VerifGraphView struct {
+	Edges          []VerifEdgeView            // g.edges
+	Nodes          []VerifNodeView            // g.nodes, in slice order
+	NodeIndex      map[string]*GraphNode      // g.nodesBySubjectAndKey
+	NodesBySubject map[string][]*GraphNode    // g.nodesBySubject
+	MissingIssuer  map[string][]VerifEdgeView // g.missingIssuerNode
+}
+
+func verifNodeFP(n *GraphNode) []byte {
+	if n == nil || n.SubjectAndKey == nil {
+		return nil
+	}
+	out := make([]byte, len(n.SubjectAndKey.Fingerprint))
+	copy(out, n.SubjectAndKey.Fingerprint)
+	return out
+}
+
+func verifEdgeView(key string, e *GraphEdge) VerifEdgeView {
+	v := VerifEdgeView{SetKey: key, Edge: e}
+	if e == nil {
+		return v
+	}
+	v.Certificate = e.Certificate
+	v.Issuer = e.issuer
+	v.Child = e.child
+	v.IssuerFP = verifNodeFP(e.issuer)
+	v.ChildFP = verifNodeFP(e.child)
+	v.Root = e.root
+	return v
+}
+
+func verifEdgeSetView(es *GraphEdgeSet) []VerifEdgeView {
+	if es == nil {
+		return nil
+	}
+	out := make([]VerifEdgeView, 0, len(es.edges))
+	for k, e := range es.edges {
+		out = append(out, verifEdgeView(k, e))
+	}
+	return out
+}
+
+func verifNodeView(n *GraphNode) VerifNodeView {
+	v := VerifNodeView{Node: n}
+	if n == nil {
+		return v
+	}
+	v.Fingerprint = verifNodeFP(n)
+	v.Parents = make(map[string][]VerifEdgeView, len(n.parentsBySubjectAndKey))
+	for k, es := range n.parentsBySubjectAndKey {
+		v.Parents[string(k)] = verifEdgeSetView(es)
+	}
+	v.Children = make(map[string][]VerifEdgeView, len(n.childrenBySubjectAndKey))
+	for k, es := range n.childrenBySubjectAndKey {
+		v.Children[string(k)] = verifEdgeSetView(es)
+	}
+	return v
+}
+
+// VerifView returns a read-only snapshot of the graph's internal state.
+func (g *Graph) VerifView() *VerifGraphView {
+	v := &VerifGraphView{
+		NodeIndex:      make(map[string]*GraphNode, len(g.nodesBySubjectAndKey)),
+		NodesBySubject: make(map[string][]*GraphNode, len(g.nodesBySubject)),
+		MissingIssuer:  make(map[string][]VerifEdgeView, len(g.missingIssuerNode)),
+	}
+	v.Edges = verifEdgeSetView(g.edges)
+	for _, n := range g.nodes {
+		v.Nodes = append(v.Nodes, verifNodeView(n))
+	}
+	for k, n := range g.nodesBySubjectAndKey {
+		v.NodeIndex[string(k)] = n
+	}
+	for k, ns := range g.nodesBySubject {
+		c := make([]*GraphNode, len(ns))
+		copy(c, ns)
+		v.NodesBySubject[k] = c
+	}
+	for k, es := range g.missingIssuerNode {
+		v.MissingIssuer[k] = verifEdgeSetView(es)
+	}
+	return v
+}
+
+// VerifIssuer returns the edge's issuer node (nil when unresolved).
+func (e *GraphEdge) VerifIssuer() *GraphNode { return e.issuer }
+
+// VerifChild returns the edge's child node.
+func (e *GraphEdge) VerifChild() *GraphNode { return e.child }
+
+// VerifRoot returns the edge's root flag.
+func (e *GraphEdge) VerifRoot() bool { return e.root }
